@@ -483,13 +483,14 @@ where
     ) -> (TrackDistanceOk<OA>, TrackDistanceErr<OA>) {
         let tracks_vec = self.fetch_tracks(tracks);
 
-        let res = self.foreign_track_distances(tracks_vec.clone(), feature_class, only_baked);
-
-        for t in tracks_vec {
-            self.add_track(t).unwrap();
+        // The tracks go back into the store before the distance commands are queued:
+        // otherwise a shard worker may scan its shard while they are still missing,
+        // and whether the candidates are compared with one another depends on timing.
+        for t in &tracks_vec {
+            self.add_track(t.clone()).unwrap();
         }
 
-        res
+        self.foreign_track_distances(tracks_vec, feature_class, only_baked)
     }
 
     /// returns the store shard for id
